@@ -5,6 +5,7 @@ import re
 
 from ..core.engine import Res
 from ..core.facts import AnchorMissing
+from ..core.rules import on_ok_must_pass
 from ..core.rules import (who_reads_discr, wire, must_pass, errset, guard,
                           checked_calls)
 from ..core.fa_rule import fa_for
@@ -127,6 +128,14 @@ def run(ctx):
                       '(index_insert can still reject it afterwards): a dropped update leaves blank parents behind in the committer\'s tree only',
                       where=[body.ln(s_)] + [body.ln(v) for v in late[:2]])
         return r
+    # a leaf taken out of the node vector is taken out of the identity / key index as well, on the committer (which may go on after a
+    # failed by-reference Remove) exactly as on the receiver: a stale index entry makes the committer reject what receivers accept
+    ctx.check('PAIRED-UPDATE', 'apply_remove: a leaf removed from the tree is removed from the tree index',
+              lambda P_: on_ok_must_pass(P_, 'TreeKemPublic::apply_remove', r'NodeVec::blank_leaf_node$', r'TreeIndex::remove$',
+                                         'removes a leaf from the node vector'), floor=1, configs=['A', 'C'])
+    ctx.check('PAIRED-UPDATE', 'batch_edit: the old leaf of an Update is removed from the tree index when it is taken out of the tree',
+              lambda P_: on_ok_must_pass(P_, 'TreeKemPublic::batch_edit', r'NodeVec::blank_leaf_node$', r'TreeIndex::remove$',
+                                         'takes the old leaf of an Update out of the node vector'), floor=1, configs=['A', 'C'])
     ctx.check('ORDER', 'batch_edit: direct paths of updaters are blanked only after every update was accepted or rolled back', blank_after_validation, floor=1,
               configs=['A', 'C', 'D'])      # configuration B has no by-reference proposals, hence no droppable Update and no batch_edit
     # path requirement computed by one function on both sides from the applied proposals
